@@ -41,7 +41,7 @@ func VerifC02_Read() {
 	} else {
 		f.AsyncRead(b, cb)
 	}
-	R := vf.Bound("polls", 3, 4)
+	R := vf.Bound("polls", 3, 3)
 	vf.Unwind(16)
 	polls := 0
 	for calls == 0 && polls < R {
@@ -99,7 +99,7 @@ func VerifC02_Write() {
 	} else {
 		f.AsyncWrite(b, cb)
 	}
-	R := vf.Bound("polls", 3, 4)
+	R := vf.Bound("polls", 3, 3)
 	vf.Unwind(16)
 	polls := 0
 	for calls == 0 && polls < R {
@@ -165,7 +165,7 @@ func (c c02NetConn) Write(p []byte) (int, error) {
 
 func c02Adapter() (*IO, *AsyncAdapter, int) {
 	vkernel.Reset(vkernel.Config{AllowEOF: true, AllowIOErr: true, AllowPartial: true, Batch: 1,
-		MaxDataOps: vf.Bound("adapter-kernel-segments", 3, 4), MaxWaits: 6})
+		MaxDataOps: vf.Bound("adapter-kernel-segments", 3, 3), MaxWaits: 6})
 	ioc := MustIO()
 	fd := vkernel.NewStream()
 	var a *AsyncAdapter
